@@ -23,6 +23,7 @@ pub mod dimprog;
 
 registry! {
     "BENCH" => bench,
+    "C01" => c01,
     "C02" => c02,
     "C03" => c03,
     "C04" => c04,
